@@ -25,6 +25,24 @@ pub struct Case {
     pub referrer_renamed: bool,
     pub lang: Lang,
     pub prefixed: bool,
+    /// how the generic parameter of the param-* positions is mentioned
+    pub param_carrier: &'static str,
+}
+
+const PARAM_CARRIERS: [&str; 8] = ["option", "bare", "vec", "map-key", "map-value", "array", "box", "holder"];
+
+fn carry_param(c: &Case) -> Ty {
+    let t = Ty::Param("T".into());
+    match c.param_carrier {
+        "bare" => t,
+        "vec" => Ty::Vec(Box::new(t)),
+        "map-key" => Ty::Map(Box::new(t), Box::new(Ty::Prim("u32"))),
+        "map-value" => Ty::Map(Box::new(Ty::Prim("String")), Box::new(t)),
+        "array" => Ty::Array(Box::new(t), 2),
+        "box" => Ty::Ptr("Box", Box::new(t)),
+        "holder" => Ty::Generic("Holder".into(), vec![t]),
+        _ => Ty::Option(Box::new(t)),
+    }
 }
 
 pub fn gen(ch: &mut Chooser) -> Case {
@@ -34,7 +52,8 @@ pub fn gen(ch: &mut Chooser) -> Case {
     let referrer_renamed = ch.flag("referrer_renamed");
     let lang = *ch.pick("lang", &ALL_LANGS);
     let prefixed = ch.flag("cfg");
-    Case { kind, renamed, position, referrer_renamed, lang, prefixed }
+    let param_carrier = if position.starts_with("param-") && position != "param-alias" { *ch.pick("param_carrier", &PARAM_CARRIERS) } else { "option" };
+    Case { kind, renamed, position, referrer_renamed, lang, prefixed, param_carrier }
 }
 
 fn target_item(c: &Case) -> Item {
@@ -130,17 +149,26 @@ pub fn program(c: &Case) -> File {
         "variant-field" => Item::enumm("Referrer", vec![Variant::new("S", VKind::Struct(vec![Field::new("r", t)])), Variant::new("U", VKind::Unit)]),
         "alias-target" => Item::new("Referrer", IKind::Alias(Ty::Vec(Box::new(t)))),
         "param-field" => {
-            let mut i = Item::strukt("Referrer", vec![Field::new("p", Ty::Param("T".into())), Field::new("q", Ty::Vec(Box::new(Ty::Param("T".into())))), Field::new("r", t)]);
+            if c.param_carrier == "holder" {
+                items.push(g.clone());
+            }
+            let mut i = Item::strukt("Referrer", vec![Field::new("p", carry_param(c)), Field::new("r", t)]);
             i.generics = vec!["T".into()];
             i
         }
         "param-payload" => {
-            let mut i = Item::enumm("Referrer", vec![Variant::new("P", VKind::Newtype(Ty::Param("T".into()))), Variant::new("Q", VKind::Newtype(t))]);
+            if c.param_carrier == "holder" {
+                items.push(g.clone());
+            }
+            let mut i = Item::enumm("Referrer", vec![Variant::new("P", VKind::Newtype(carry_param(c))), Variant::new("Q", VKind::Newtype(t))]);
             i.generics = vec!["T".into()];
             i
         }
         "param-variant-field" => {
-            let mut i = Item::enumm("Referrer", vec![Variant::new("S", VKind::Struct(vec![Field::new("p", Ty::Option(Box::new(Ty::Param("T".into())))), Field::new("r", t)])), Variant::new("U", VKind::Unit)]);
+            if c.param_carrier == "holder" {
+                items.push(g.clone());
+            }
+            let mut i = Item::enumm("Referrer", vec![Variant::new("S", VKind::Struct(vec![Field::new("p", carry_param(c)), Field::new("r", t)])), Variant::new("U", VKind::Unit)]);
             i.generics = vec!["T".into()];
             i
         }
@@ -238,6 +266,12 @@ pub fn check_case(c: &Case, choices: &[u32], acc: &mut Acc) {
                 acc.machinery(format!("renderer produced invalid Rust: {e}\n{source}"));
                 return;
             }
+            // a generic parameter as map key is refused with a clean error by some backends
+            if c.param_carrier == "map-key" && matches!(&fail, RunFail::Pipeline(crate::pipeline::Outcome::GenError(_))) {
+                acc.count("generic_map_key_refused_cleanly", 1);
+                acc.out_of_scope += 1;
+                return;
+            }
             acc.vios.add(Violation {
                 sig: format!("C09|{}|no-output:{}|{shape}", c.lang.name(), fail.class()),
                 detail: json!({"choices": choices, "lang": c.lang.name(), "source": source, "failure": fail.describe()}),
@@ -325,7 +359,7 @@ pub fn run(args: &[String]) -> i32 {
         report::threads(),
         u64::MAX,
     );
-    merge(&mut rep, "references", accs, &stats, json!({"target_kinds": TARGET_KINDS, "target_renamed": [false, true], "positions": POSITIONS, "referrer_renamed": [false, true], "languages": 6, "configs": 2}));
+    merge(&mut rep, "references", accs, &stats, json!({"target_kinds": TARGET_KINDS, "target_renamed": [false, true], "positions": POSITIONS, "generic_parameter_carriers": PARAM_CARRIERS, "referrer_renamed": [false, true], "languages": 6, "configs": 2}));
     require_nonvacuous(&mut rep);
     rep.cov("rule", json!("full product target kind × serde(rename) on the target × reference position × serde(rename) on the referrer × language × prefix configuration; from the parsed output: Defined = all definition names (incl. helper structs), Referenced = every non-primitive, non-generic-parameter name in a type tree, variant parent clause or Inner reference; Referenced ⊆ Defined and each item is defined as prefix + renamed name. non-trivial = some rename or prefix is in force."));
     rep.assume("names recognised as target-language primitives/builtins are not user references");
